@@ -15,10 +15,10 @@ MCEnv == [none |-> [k |-> "bool"]]
 VARIABLES st, c
 vars == <<st, c>>
 
-CfgOf(n) == CASE n = "default" -> [protoTime |-> FALSE, protoArrays |-> FALSE, nullProto |-> FALSE, flatUnsigned |-> FALSE, timeAsZigZag |-> FALSE]
-              [] n = "pt"      -> [protoTime |-> TRUE, protoArrays |-> FALSE, nullProto |-> FALSE, flatUnsigned |-> FALSE, timeAsZigZag |-> FALSE]
-              [] n = "pa"      -> [protoTime |-> FALSE, protoArrays |-> TRUE, nullProto |-> FALSE, flatUnsigned |-> FALSE, timeAsZigZag |-> FALSE]
-              [] n = "both"    -> [protoTime |-> TRUE, protoArrays |-> TRUE, nullProto |-> FALSE, flatUnsigned |-> FALSE, timeAsZigZag |-> FALSE]
+CfgOf(n) == CASE n = "default" -> [protoTime |-> FALSE, protoArrays |-> FALSE, nullProto |-> FALSE, flatUnsigned |-> FALSE, timeAsZigZag |-> FALSE, marker |-> "none"]
+              [] n = "pt"      -> [protoTime |-> TRUE, protoArrays |-> FALSE, nullProto |-> FALSE, flatUnsigned |-> FALSE, timeAsZigZag |-> FALSE, marker |-> "none"]
+              [] n = "pa"      -> [protoTime |-> FALSE, protoArrays |-> TRUE, nullProto |-> FALSE, flatUnsigned |-> FALSE, timeAsZigZag |-> FALSE, marker |-> "none"]
+              [] n = "both"    -> [protoTime |-> TRUE, protoArrays |-> TRUE, nullProto |-> FALSE, flatUnsigned |-> FALSE, timeAsZigZag |-> FALSE, marker |-> "none"]
 
 \* ---- kinds ----
 KInt(w, opt) == [k |-> "int", w |-> w, opt |-> opt, of |-> ""]
